@@ -156,6 +156,18 @@ void dom_p08(void) {
         n = pick_table(idx, 0, NPOOL, 8 + (int) h_below(10));
         build_table(table, idx, n);
         for (m = 0; m < msgs; m++) { size_t ml = gen_message(msg, idx, n, 3, 10, 1); if (sl + ml < sizeof stream - 1) { memcpy(stream + sl, msg, ml); sl += ml; } }
+        /* directed: a terminated numeric message followed by an UNTERMINATED numeric message that only a zero-length
+         * call executes; whatever the previous message left behind the pending bytes must not leak into the number */
+        int directed = h_chance(35);
+        if (directed) {
+            static const char *ncmd[] = {"I32", "U32", "I64", "U64", "DBL", "FLT", "NUM", "I32O"}; int k2;
+            /* make sure the numeric commands are in the table */
+            n = 0; for (k2 = 24; k2 <= 31; k2++) idx[n++] = k2; idx[n++] = 36; idx[n++] = 54; build_table(table, idx, n);
+            sl = 0;
+            for (m = 0; m < 1 + (int) h_below(2); m++)
+                sl += (size_t) sprintf(stream + sl, "%s %u%s%u%s", ncmd[h_below(8)], h_below(100000), h_chance(40) ? "." : "", h_below(100000), h_chance(50) ? "\n" : "\r\n");
+            sl += (size_t) sprintf(stream + sl, "%s %s%u", ncmd[h_below(8)], h_chance(20) ? "-" : "", h_below(1000));      /* unterminated */
+        }
         /* streams never leave more pending than the buffer holds: buffer is larger than the stream */
         k = (size_t) sprintf(line, "P8 %d 16 %s", (int) sl + 2 + (int) h_below(40), table);
         { unsigned mode = h_below(4);
@@ -163,7 +175,7 @@ void dom_p08(void) {
           if (mode == 0) { line[k++] = ' '; k += chunk_hex(line + k, stream, sl); }                       /* all at once */
           else if (mode == 1) { size_t cut = sl ? h_below((unsigned) sl + 1) : 0; line[k++] = ' '; k += chunk_hex(line + k, stream, cut); line[k++] = ' '; k += chunk_hex(line + k, stream + cut, sl - cut); }
           else while (off < sl) { size_t c = 1 + h_below((unsigned)(sl - off < 9 ? sl - off : 9)); line[k++] = ' '; k += chunk_hex(line + k, stream + off, c); off += c; } }
-        if (h_chance(30)) k += (size_t) sprintf(line + k, " -");
+        if (directed || h_chance(30)) k += (size_t) sprintf(line + k, " -");
         k += (size_t) sprintf(line + k, " |");
         for (off = 0; off < sl; off++) { line[k++] = ' '; k += chunk_hex(line + k, stream + off, 1); }
         if (line[k - 1] == '|' ) { /* empty */ }
